@@ -908,7 +908,10 @@ class Rewriter:
                 mlog.error('Can not add target', mlog.bold(cmd['target']), 'because it already exists', *self.on_error())
                 return self.handle_error()
 
-            id_base = re.sub(r'[- ]', '_', cmd['target'])
+            # A target name may hold characters ('.', '+', '@', a leading digit ...) that an identifier may not
+            id_base = re.sub(r'[^A-Za-z0-9_]', '_', cmd['target'])
+            if id_base[:1].isdigit():
+                id_base = '_' + id_base
             target_id = id_base + '_exe' if cmd['target_type'] == 'executable' else '_lib'
             source_id = id_base + '_sources'
             filename = os.path.join(os.getcwd(), self.interpreter.source_root, cmd['subdir'], environment.build_filename)
